@@ -14,10 +14,10 @@ META = {
     "explanation": "Purity of everything reachable from analyze_for_*: R15.globals (no static / thread_local / unsafe in the local crates), R15.effects (no fs, env, time, "
                    "rand, process, net, thread callee), R15.fileno (the file index flows only into argument 2 of solang_parser::parse; Loc's file field and "
                    "file_no/try_file_no are never read), R15.order (hash-ordered iteration inside detectors feeds only order-insensitive sinks, no early exit), "
-                   "R15.perfile (the per-file call receives only this file's content, the index and the pattern). A function of its arguments only, with no shared "
+                   "R15.perfile (the per-file call receives only this file's content, the index and the pattern), R15.retain (the accumulator of analyze_dir and the lists in it are only the receiver of grow-only operations, so what was recorded for one file survives the processing of every other entry). A function of its arguments only, with no shared "
                    "state, gives the same result under any co-selection, repetition or thread interleaving.",
     "assumptions": ["solang_parser::parse and regex are pure functions of their arguments (dependency code is not analysed)"],
-    "floors": {"R15.effects": 3, "R15.fileno": 3, "R15.perfile": 3, "R15.order": 10, "R15.siblings": 3},
+    "floors": {"R15.effects": 3, "R15.fileno": 3, "R15.perfile": 3, "R15.order": 10, "R15.siblings": 3, "R15.retain": 3},
 }
 
 EFFECT_PREFIXES = ("std::fs::", "std::env::", "std::time::", "std::process::", "std::net::", "std::thread::", "std::io::", "rand::", "std::sync::",
@@ -153,7 +153,35 @@ def run(ctx, crate):
                       expected="no early exit from the listing loop; the decision to analyse mentions only the entry itself",
                       found=("early exit at line(s) %s" % sorted(set(early))) if early else (foreign or "entry-local"),
                       example="a *.t.sol file listed before a contract"))
+    # R15.retain: what is already recorded for a file is never removed or altered while other entries of the run are processed: the accumulator and the
+    # lists stored in it are used only as the receiver of grow-only operations (never handed over as a source to drain, never cleared / truncated / overwritten)
+    for w in dirwalk.walks(crate):
+        if not w.ok:
+            continue
+        bad = []
+        n = 0
+        for s in w.sites:
+            for i, a in enumerate(s.args or []):
+                if not (a == w.acc or O.root_object(a) == w.acc):
+                    continue
+                n += 1
+                name = s.path.rsplit("::", 1)[-1]
+                if i == 0 and (s.path.endswith(GROW) or name in READ_ONLY):
+                    continue
+                bad.append("argument %d of %s at line %s" % (i, short(s.path), s.where.rsplit(":", 1)[-1]))
+        obs.append(Ob("R15.retain", w.path, "findings recorded for earlier files are only added to (accumulator used as receiver of grow-only operations)",
+                      not bad and n > 0 and w.acc[0] != "phi", expected="entry / or_insert / push / append / extend with the accumulator as receiver",
+                      found=bad or "%d uses, all grow-only" % n,
+                      example="dir/A.sol listed before dir/sub/: the merge of sub's findings must leave A.sol's in place"))
     return obs
+
+
+GROW = ("::entry", "::or_insert", "::or_insert_with", "::or_default", "::push", "::append", "::extend", "::extend_from_slice")
+READ_ONLY = ("len", "iter", "is_empty", "deref", "clone", "get", "contains_key", "keys", "values")
+
+
+def short(p):
+    return "::".join(p.split("<")[0].rstrip(":").split("::")[-2:]) if "<" in p else "::".join(p.split("::")[-2:])
 
 
 def _places(x):
